@@ -44,6 +44,7 @@ func checkC17(c *Ctx) {
 	c17CheckBeforeAttempt(c, exec)
 	c17Clamp(c, validate)
 	c17Table(c)
+	c17TextTable(c, classify)
 	c17Options(c, validate)
 	c17ErrorText(c, exec)
 	c17NoTransportReplay(c)
@@ -1875,5 +1876,83 @@ func c17CheckBeforeAttempt(c *Ctx, exec *ssa.Function) {
 		}
 		c.R.Check(!reached, "R-cancel", construct, c.Pos(oc.Pos()), "every path passes a non-blocking look at ctx.Done() / ctx.Err()",
 			sprintf("the retry loop can go from %s to the next call of the operation without looking at the caller's context: a call whose context is already cancelled (or is cancelled while the timer fires) still makes an attempt — another request is sent after the cancellation", s.what))
+	}
+}
+
+// ---------------------------------------------------------------- R-text-table
+// Failures without a typed status are classified by text fragments. Which fragments make a failure transient is part
+// of the property ("connection refused / reset / timeout, EOF and the listed status codes"): the set found on today's
+// tree is the reference. The fragments are collected semantically — constant operands of strings.Contains / HasSuffix /
+// HasPrefix / == / concatenation in the classifier and what it calls, and constant elements of the package's tables —
+// so moving them into a table changes nothing, while a fragment outside the reference (for instance "dial tcp",
+// which prefixes every failed connection attempt, permanent ones included) is reported.
+var transientTextReference = map[string]bool{
+	"connection refused": true, "connection reset": true, "connection timeout": true, "connection lost": true,
+	"connection aborted": true, "i/o timeout": true, "read timeout": true, "write timeout": true, "dial timeout": true,
+	"eof": true, ": eof": true,
+	// shapes in which a status code may appear in a text (the codes themselves are judged by R-code-table)
+	"http ": true, "status ": true, "status: ": true, "code ": true, "code: ": true, " ": true,
+}
+
+func c17TextTable(c *Ctx, classify *ssa.Function) {
+	found := map[string]token.Pos{}
+	note := func(v ssa.Value, pos token.Pos) {
+		if s, ok := ir.ConstStr(v); ok && s != "" {
+			if _, seen := found[strings.ToLower(s)]; !seen {
+				found[strings.ToLower(s)] = pos
+			}
+		}
+	}
+	for fn := range c.ReachSync(classify) {
+		if fn.Pkg == nil || fn.Pkg.Pkg.Path() != retryPkg {
+			continue
+		}
+		ir.EachInstr(fn, func(_ *ssa.BasicBlock, _ int, in ssa.Instruction) {
+			switch x := in.(type) {
+			case *ssa.Call:
+				switch ir.CallName(x) {
+				case "strings.Contains", "strings.HasSuffix", "strings.HasPrefix", "strings.EqualFold", "strings.Index":
+					for _, a := range x.Call.Args {
+						note(a, x.Pos())
+					}
+				}
+			case *ssa.BinOp:
+				if x.Op == token.EQL || x.Op == token.ADD {
+					if _, isStr := x.X.Type().Underlying().(*types.Basic); isStr {
+						note(x.X, x.Pos())
+						note(x.Y, x.Pos())
+					}
+				}
+			}
+		})
+	}
+	// constant elements of the package's string tables (filled in by the package initialiser)
+	if pk := c.P.SSAPkg[retryPkg]; pk != nil {
+		if init := pk.Func("init"); init != nil {
+			ir.EachInstr(init, func(_ *ssa.BasicBlock, _ int, in ssa.Instruction) {
+				st, ok := in.(*ssa.Store)
+				if !ok {
+					return
+				}
+				if _, isIdx := st.Addr.(*ssa.IndexAddr); isIdx {
+					note(st.Val, st.Pos())
+				}
+			})
+		}
+	}
+	var frags []string
+	for f := range found {
+		frags = append(frags, f)
+	}
+	sort.Strings(frags)
+	if len(frags) < 8 {
+		c.R.Break("R-text-table: only %d text fragments found in the classifier", len(frags))
+	}
+	for _, f := range frags {
+		if _, err := strconv.Atoi(f); err == nil {
+			continue // a status code written as text: R-code-table
+		}
+		c.R.Check(transientTextReference[f], "R-text-table", sprintf("text fragment %q", f), c.Pos(found[f]), "one of the fragments that mark a transient failure",
+			sprintf("the retry classifier treats an error whose text contains %q as transient; that fragment is not among those that mark a transient failure (connection refused / reset / timeout / lost / aborted, i/o-, read-, write-, dial timeout, EOF): failures it also matches that are permanent are re-attempted MaxRetries times", f))
 	}
 }
